@@ -593,7 +593,8 @@ static void missing_conv(char conv) {
 #define NUSER   48          /* containers of plain user structs of sizes 1,3,5,8,12,20 */
 #define NBASE   10          /* base containers the views are laid over */
 #define NVIEW   10
-#define NSHAPES_MAX (NSHAPES_ALL + NUSER + NBASE * NVIEW)
+#define NRANGE  27          /* Range objects and views over a big-valued Range */
+#define NSHAPES_MAX (NSHAPES_ALL + NUSER + NBASE * NVIEW + NRANGE)
 static const char* shape_name[NSHAPES_MAX];
 static char shape_name_buf[NSHAPES_MAX][160];
 static const char* shape_elem[NSHAPES_MAX];     /* element feature for the label (generated shapes) */
@@ -752,7 +753,7 @@ static var umk(int i, int v) {
   return o;
 }
 
-static int is_container(var ty) { return ty == Array || ty == List || ty == Tuple || ty == Table || ty == Tree || ty == Slice; }
+static int is_container(var ty) { return ty == Array || ty == List || ty == Tuple || ty == Table || ty == Tree || ty == Slice || ty == Range; }
 
 static size_t app(char* buf, size_t o, size_t cap, const char* t, size_t n) {
   if (o >= cap || o + n + 1 > cap) return cap;
@@ -955,6 +956,46 @@ static void show_views(void) {
   }
 }
 
+/* Range objects (their items are Ints; shown in brackets like a Slice) and views over a big-valued Range */
+static void show_ranges(void) {
+  int h0 = NSHAPES_ALL + NUSER + NBASE * NVIEW;
+  static const char* RN[NRANGE] = {
+    "range(0)", "range(1)", "range(3)", "range(2, 6)", "range(5, 5)", "range(6, 2)", "range(0, 7, 2)", "range(0, 10, 3)",
+    "range(0, 5, -1)", "range(0, 6, -2)", "range(3, 3, -1)", "range(-3, 2)",
+    "range(2147483646, 2147483651)", "range(-2147483650, -2147483645)", "range(3000000000, 3000000004)", "range(4294967294, 4294967299)",
+    "range(-4294967298, -4294967293)", "range(9223372036854775800, 9223372036854775806, 2)", "range(-9223372036854775807, -9223372036854775803)",
+    "range(3000000000, 3000000006, -2)",
+    "new(Range, 3)", "new(Range, 2, 9, 3)", "new(Range, 3000000000, 3000000004)",
+    "slice(x) over x = range(3000000000, 3000000005)", "reverse(x) over x = range(3000000000, 3000000005)",
+    "slice(x, 1, 3) over x = range(3000000000, 3000000005)", "slice(x, _, _, 2) over x = range(3000000000, 3000000005)" };
+  /* 0 empty, 1 items within int32, 2 items beyond int32 */
+  static const int RF[NRANGE] = { 0, 1, 1, 1, 0, 0, 1, 1, 1, 1, 0, 1,  2, 2, 2, 2, 2, 2, 2, 2,  1, 1, 2,  2, 2, 2, 2 };
+  static const char* RFN[3] = { "empty", "items-within-int32", "items-beyond-int32" };
+  if (R_on && R_h >= 0 && (R_h < h0 || R_h >= h0 + NRANGE)) return;
+  var x = range($I(3000000000LL), $I(3000000005LL));
+  var rs[NRANGE];
+  rs[0] = range($I(0)); rs[1] = range($I(1)); rs[2] = range($I(3)); rs[3] = range($I(2), $I(6)); rs[4] = range($I(5), $I(5)); rs[5] = range($I(6), $I(2));
+  rs[6] = range($I(0), $I(7), $I(2)); rs[7] = range($I(0), $I(10), $I(3)); rs[8] = range($I(0), $I(5), $I(-1)); rs[9] = range($I(0), $I(6), $I(-2));
+  rs[10] = range($I(3), $I(3), $I(-1)); rs[11] = range($I(-3), $I(2));
+  rs[12] = range($I(2147483646LL), $I(2147483651LL)); rs[13] = range($I(-2147483650LL), $I(-2147483645LL));
+  rs[14] = range($I(3000000000LL), $I(3000000004LL)); rs[15] = range($I(4294967294LL), $I(4294967299LL));
+  rs[16] = range($I(-4294967298LL), $I(-4294967293LL));
+  rs[17] = range($I(9223372036854775800LL), $I(9223372036854775806LL), $I(2));
+  rs[18] = range($I(-9223372036854775807LL), $I(-9223372036854775803LL));
+  rs[19] = range($I(3000000000LL), $I(3000000006LL), $I(-2));
+  rs[20] = new(Range, $I(3)); rs[21] = new(Range, $I(2), $I(9), $I(3)); rs[22] = new(Range, $I(3000000000LL), $I(3000000004LL));
+  rs[23] = slice(x); rs[24] = reverse(x); rs[25] = slice(x, $I(1), $I(3)); rs[26] = slice(x, _, _, $I(2));
+  for (int i = 0; i < NRANGE; i++) {
+    int h = h0 + i;
+    if (R_on && R_h >= 0 && R_h != h) continue;
+    snprintf(shape_name_buf[h], sizeof shape_name_buf[h], "%s", RN[i]);
+    snprintf(shape_elem_buf[h], sizeof shape_elem_buf[h], "%s%s", i >= 23 ? "over-Range/" : i >= 20 ? "heap/" : "", RFN[RF[i]]);
+    shape_name[h] = shape_name_buf[h]; shape_elem[h] = shape_elem_buf[h];
+    check_shape(h, rs[i], 1);
+  }
+  for (int i = 20; i <= 22; i++) del(rs[i]);
+}
+
 static void show_mode(void) {
   for (int hi_ = 0; hi_ < NSHAPES_ALL + NUSER; hi_++) {
     /* simplest first: hand-written shapes, generated single-type shapes, the nested ones, then user structs */
@@ -964,6 +1005,7 @@ static void show_mode(void) {
     check_shape(h, o, 0);
   }
   show_views();
+  show_ranges();
 }
 
 /* ---- length ladder ------------------------------------------------------------------------
@@ -1994,6 +2036,7 @@ int main(int argc, char** argv) {
     show_mode();
     vf_extra("container_shapes", "%d", NSHAPES_ALL + NUSER);
     vf_extra("view_shapes", "%d", NBASE * NVIEW);
+    vf_extra("range_shapes", "%d", NRANGE);
   } else {
     for (const char* c = convs; *c; c++) {
       if (R_on && R_c && *c != R_c) continue;
